@@ -97,6 +97,43 @@ func genC12() *rapid.Generator[Case] {
 			}
 			bad.Ops = append(bad.Ops, op)
 		}
+		if structs && kind != "sfault" && rapid.IntRange(0, 3).Draw(t, "popexisting") == 2 {
+			// a pop on a structure the history itself wrote (it has members to hand out and to lose): what a pop
+			// returns inside a transaction that ends without effect must still be there afterwards
+			type bk struct{ b, k string }
+			var sets, lists []bk
+			for b, ks := range hu.SK {
+				for _, k := range ks {
+					if b != "never" && k != "" {
+						sets = append(sets, bk{b, k})
+					}
+				}
+			}
+			for b, ks := range hu.LK {
+				for _, k := range ks {
+					if b != "never" && k != "" {
+						lists = append(lists, bk{b, k})
+					}
+				}
+			}
+			sort.Slice(sets, func(i, j int) bool { return sets[i].b+"\x00"+sets[i].k < sets[j].b+"\x00"+sets[j].k })
+			sort.Slice(lists, func(i, j int) bool { return lists[i].b+"\x00"+lists[i].k < lists[j].b+"\x00"+lists[j].k })
+			if len(sets) > 0 {
+				x := rapid.SampledFrom(sets).Draw(t, "popset")
+				bad.Ops = append(bad.Ops, Op{K: "spop", B: S(x.b), Key: S(x.k)})
+			}
+			if len(lists) > 0 {
+				x := rapid.SampledFrom(lists).Draw(t, "poplist")
+				bad.Ops = append(bad.Ops, Op{K: rapid.SampledFrom([]string{"lpop", "rpop"}).Draw(t, "popkind"), B: S(x.b), Key: S(x.k)})
+			}
+			zbs := append([]string(nil), hu.ZB...)
+			sort.Strings(zbs)
+			for _, b := range zbs {
+				if b != "never" && rapid.Bool().Draw(t, "popz") {
+					bad.Ops = append(bad.Ops, Op{K: rapid.SampledFrom([]string{"zpopmax", "zpopmin"}).Draw(t, "zpopkind"), B: S(b)})
+				}
+			}
+		}
 		switch kind {
 		case "fnerr":
 			bad.Managed = true
